@@ -265,30 +265,45 @@ def _protocol(ctx, col):
                 return len(defs) == 1 and is_latest(defs[0].value)
             return False
 
-        def none_test(t):
+        def none_test(t, names=None):
             """X for `X is None` / `not X` with X a step alias"""
+            names = al if names is None else names
             if isinstance(t, ast.Compare) and len(t.ops) == 1 and isinstance(t.ops[0], ast.Is) and isinstance(t.left, ast.Name) \
-                    and isinstance(t.comparators[0], ast.Constant) and t.comparators[0].value is None and t.left.id in al:
+                    and isinstance(t.comparators[0], ast.Constant) and t.comparators[0].value is None and t.left.id in names:
                 return t.left.id
-            if isinstance(t, ast.UnaryOp) and isinstance(t.op, ast.Not) and isinstance(t.operand, ast.Name) and t.operand.id in al:
+            if isinstance(t, ast.UnaryOp) and isinstance(t.op, ast.Not) and isinstance(t.operand, ast.Name) and t.operand.id in names:
                 return t.operand.id
             return None
 
         stepsel, sel_form = None, None
+        selected: set[str] = set()
         for n in nodes:
             a = n.ast
-            if isinstance(a, ast.Assign) and len(a.targets) == 1 and isinstance(a.targets[0], ast.Name) and a.targets[0].id in al:
+            if isinstance(a, ast.Assign) and len(a.targets) == 1 and isinstance(a.targets[0], ast.Name):
                 v = a.value
                 if isinstance(v, ast.BoolOp) and isinstance(v.op, ast.Or) and len(v.values) == 2 and isinstance(v.values[0], ast.Name) \
                         and v.values[0].id in al and is_latest(v.values[1]):
                     stepsel, sel_form = n, "or"
+                    selected.add(a.targets[0].id)  # the selected step may live in a new variable (`step_to_load = step or ...`)
                     break
             if n.kind == "test" and none_test(a.test) is not None and any(
                     isinstance(b, ast.Assign) and len(b.targets) == 1 and isinstance(b.targets[0], ast.Name) and b.targets[0].id in al
                     and is_latest(b.value) for b in a.body):
                 stepsel, sel_form = n, "if"
                 break
-        nonecheck = _first(nodes, lambda n: n.kind == "test" and none_test(n.ast.test) is not None
+        if sel_form == "if":
+            selected |= al
+        grow = True
+        while grow:
+            grow = False
+            for n in nodes:
+                a = n.ast
+                if isinstance(a, ast.Assign) and len(a.targets) == 1 and isinstance(a.targets[0], ast.Name) and isinstance(a.value, ast.Name) \
+                        and a.value.id in selected and a.targets[0].id not in selected:
+                    selected.add(a.targets[0].id)
+                    grow = True
+        al_sel = al | selected
+        nonecheck = _first(nodes, lambda n: n.kind == "test" and none_test(n.ast.test, al_sel) is not None
                            and isinstance(n.ast.test, ast.Compare) and any(isinstance(b, ast.Raise) for b in n.ast.body))
         # (a) template from the constructed solver
         ok = tmpl is not None
@@ -322,7 +337,7 @@ def _protocol(ctx, col):
             recv_ok = isinstance(acall.func.value, ast.Name) and acall.func.value.id == solver_expr
             arg_ok = len(acall.args) == 1 and isinstance(acall.args[0], ast.Name) and acall.args[0].id == rname
             rcall = [c for c in _stmt_calls(mrestore) if isinstance(c.func, ast.Attribute) and c.func.attr == "restore"][0]
-            step_ok = bool(rcall.args) and isinstance(rcall.args[0], ast.Name) and rcall.args[0].id in al
+            step_ok = bool(rcall.args) and isinstance(rcall.args[0], ast.Name) and rcall.args[0].id in (selected or al)
             tname = tmpl.ast.targets[0].id if tmpl is not None and isinstance(tmpl.ast.targets[0], ast.Name) else None
             tmpl_ok = tname is not None and any(
                 isinstance(x, ast.Name) and x.id == tname for k in rcall.keywords for x in ast.walk(k.value)
